@@ -263,7 +263,7 @@ def run(tier):
                 'seeded histories (<= ~8 operations) over {add_worker(thread/process/remote), add_worker with refused registration, attach, run(n inputs, poison, extra pending), restart_workers, SIGKILL a worker, stuck worker, '
                 'leave by __exit__ / __exit__ with exception / close / terminate} x close_timeout {0.2, 1} x force {None, True}, each in its own session; distinct non-trivial = distinct histories')
     r = rng('c09')
-    jobs = [gen_history(r) for _ in range(400 if thorough else 40)]
+    jobs = [gen_history(r) for _ in range(400 if thorough else 90)]
     wd = workdir('c09')
 
     def one(ij):
